@@ -93,6 +93,8 @@ def check(ctx, replay=None):
         dict(scope="boundary", kw=dict(W=15, NSys=1), n=200 if th else 30),
         dict(scope="klong", kw=K, n=45 if th else 12),
         dict(scope="merge", kw={}, n=200 if th else 40),        # entries of one syscall that are not adjacent (A, B, A)
+        # every action constant (incl. data bits, user_notif, a value the kernel has no case for) in one or two groups under a permissive default
+        dict(scope="kactions", kw={}, n=500 if th else 70),
     ]
     jobs, outs = [], []
     for i, p in enumerate(plan):
@@ -109,7 +111,7 @@ def check(ctx, replay=None):
         cov["evaluations"] += s["probes"]
         cov["distinct_nontrivial"] += s["distinct_nontrivial"]
         cov["traces_validated_against_impl"] += s["children"]
-        cov.setdefault("kernel_replays", []).append({k: s[k] for k in ("scope", "cases", "children", "probes", "fatal_probes", "skipped_children", "inconclusive_children", "failed_loads_not_judged", "children_with_a_prior_policy", "children_with_a_divergent_thread")})
+        cov.setdefault("kernel_replays", []).append({k: s[k] for k in ("scope", "cases", "children", "probes", "fatal_probes", "fatal_probes_by_class", "skipped_children", "inconclusive_children", "failed_loads_not_judged", "children_with_a_prior_policy", "children_with_a_divergent_thread")})
         if s["skipped_children"] > s["children"] // 4:
             raise vlib.Machinery("%d of %d children could not be run" % (s["skipped_children"], s["children"]))
         for x in s["samples"] or []:
@@ -121,10 +123,10 @@ def check(ctx, replay=None):
             strace_capture(ctx, out, p["scope"], 8 if th else 4)
     cov["rule"] = ("policies of the CompileScopes scopes (many, rich, allops, groups2, single, boundary, klong = programs of 250..700 instructions) concretised over "
                    "the 14 harmless probe syscalls of x86_64 with seeded argument positions and word embeddings; one fresh child per policy through the real "
-                   "LoadFilter with flags in {0,tsync,log,tsync|log} and NoNewPrivs on/off; raw probes with 64-bit registers, expected errno/ENOSYS/SIGSYS "
-                   "from the specification's Decide; hook H2 compares the installed sock_filter array and flags with the compiled program; "
+                   "LoadFilter with flags in {0,tsync,log,tsync|log} and NoNewPrivs on/off; raw probes with 64-bit registers, expected observation (errno N / process killed by SIGSYS / SIGSYS delivered / "
+                   "probing thread ended) from the specification's Decide and KernelObserves; hook H2 compares the installed sock_filter array and flags with the compiled program; "
                    "non-trivial = the policy's probes receive at least two different decisions")
     ctx.assumptions += ["policies whose default action is not allow/log also deny the Go runtime's own system calls: they are installed without thread-sync and a child that its own runtime "
                         "brings down before all probes are answered is counted as inconclusive, never as a violation",
                         "host kernel only (x86_64, little endian); x32 and foreign-architecture events cannot be issued natively and are left to C04",
-                        "trace / kill_thread / user_notif actions are not observed on the kernel"]
+                        "trace and user_notif are observed without a tracer / listener (the call fails with ENOSYS, which is also what an allowed probe call returns)"]
